@@ -21,7 +21,7 @@ RULE = ('12 goal families (deterministic recursion of chosen depth, naive revers
 PARAMS = {'quick': {'n': 2}, 'thorough': {'n': 120}}
 MIN_EVAL = {'quick': 6000, 'thorough': 250000}
 STRATA = ['threshold-search', 'below-threshold', 'at-or-above-threshold', 'repeat-same-machine', 'repeat-fresh-machine', 'multi-solution', 'nested-inner-big',
-          'nested-inner-exceeded', 'exception-inside', 'infinite-loop', 'no-leftover-state']
+          'nested-inner-exceeded', 'nested-inner-tight', 'exception-inside', 'infinite-loop', 'no-leftover-state']
 ASSUMPTIONS = ['R is true or ! for an answer and inference_limit_exceeded as the last item when the limit is hit; true vs ! is not asserted',
                'a nested call may add a constant overhead (at most 200 inferences) to the outer count but must not hide the inner goal\'s inferences']
 
@@ -202,6 +202,17 @@ def shard(ctx):
                 t3 = threshold(g3, fam)
                 if t3 is None or t3 < small:
                     viol('inner_inferences_not_counted_in_outer', g3, {'family': fam, 'threshold_nested': t3, 'inner_limit': small})
+            # the outer threshold must not depend on the value of a sufficient inner limit
+            if fam in ('count', 'member', 'between', 'arith'):
+                kk, cc, mm = rng.randint(20, 60), rng.randint(5, 80), rng.randint(100, 400)
+                tin = threshold('( c40_count(%d), X = done )' % kk, fam)
+                if tin is not None:
+                    shape = '( c40_count(%d), call_with_inference_limit(c40_count(%d), %%d, _), c40_count(%d), X = done )' % (cc, kk, mm)
+                    t_big = threshold(shape % 100000000, fam)
+                    t_small = threshold(shape % (tin + rng.randint(0, 3)), fam)
+                    rec.case('nested-inner-tight', (shape, tin))
+                    if t_big is None or t_small is None or t_big != t_small:
+                        viol('outer_threshold_depends_on_sufficient_inner_limit', shape % tin, {'family': fam, 'threshold_inner_big': t_big, 'threshold_inner_tight': t_small, 'inner_limit': tin})
             # exception inside, infinite loop
             o = arith.run_goal(w, 'catch(call_with_inference_limit(( c40_count(%d), throw(c40_ball) ), 100000, R0), B, R0 = caught(B)), R = R0' % rng.randint(0, 30), var='R')
             rec.case('exception-inside', (goal, 'e'))
